@@ -11,7 +11,7 @@
    reference decoder (block recursion over the published COBS, COBS/R, COBS/ZPE schemes,
    CobsModel.v).  [pre] are bytes of earlier frames still in the window. *)
 From MptV Require Import Base.Mem Cobs.CobsModel Cobs.PyModel Cobs.EncProofs Cobs.EncTheorems
-  Cobs.EncProgress Cobs.PyProofs Cobs.TextModel Cobs.TextProofs Cobs.ArrayPush.
+  Cobs.EncProgress Cobs.PyProofs Cobs.TextModel Cobs.TextProofs Cobs.ArrayPush Cobs.EncDelete.
 
 (* the four framings are instances of the variant record the theorems quantify over *)
 Theorem C01_variants_ok :
@@ -171,6 +171,48 @@ Proof. vm_compute. auto. Qed.
 Example C01_example_idle : idle_state (mke 0 0 0) [].
 Proof. split; reflexivity. Qed.
 
+
+(* THE MESSAGE IN PROGRESS CAN BE TAKEN BACK.  The encoder counts the output bytes of the message in
+   progress ([ectx]; [ctx_ok pre st]: exactly the bytes behind the frames [pre] of the completed
+   messages).  Every data call keeps the count exact, whatever piece it is given and whatever room it
+   has; a termination clears it; and the deletion request (a source of length 1 without data, what
+   mpt_stream_reply rolls back with) returns the encoder to the idle state behind exactly the
+   completed frames -- closed blocks of the deleted message included. *)
+Theorem C01_data_call_counts_message_in_progress :
+  forall v pre consumed st buf cap src, variant_ok v ->
+    enc_inv v pre consumed st buf -> ctx_ok pre st ->
+    match enc_call v st buf cap (Some src) with
+    | (EInt _, st', _) => ctx_ok pre st'
+    | (EErr _, st', _) => st' = st
+    | (EFault, _, _) => False
+    end.
+Proof. exact enc_data_call_ctx. Qed.
+
+Theorem C01_termination_clears_count :
+  forall v pre consumed st buf cap, variant_ok v ->
+    enc_inv v pre consumed st buf -> edone st + escr st <= cap ->
+    match enc_call v st buf cap None with
+    | (EInt _, st', buf') => ectx st' = 0 /\ ctx_ok buf' st'
+    | (EErr _, st', _) => st' = st
+    | (EFault, _, _) => False
+    end.
+Proof. exact enc_term_call_ctx. Qed.
+
+Theorem C01_delete_restores_completed_stream :
+  forall v pre consumed st buf,
+    enc_inv v pre consumed st buf -> ctx_ok pre st -> ectx st <> 0 ->
+    enc_delete_current st buf = Some (EInt (length pre), mke 0 (length pre) 0, pre) /\
+    enc_inv v pre [] (mke 0 (length pre) 0) pre /\ ctx_ok pre (mke 0 (length pre) 0).
+Proof. exact enc_delete_restores. Qed.
+
+(* non-vacuity: two finished frames, a message in progress with a closed and an open block, the deletion *)
+Example C01_delete_example :
+  let pre := [2; 65; 0; 1; 0]%N in
+  let '(_, st1, buf1) := enc_call v_cobs (mke 0 5 0) pre 64 (Some [7; 0; 8; 9]%N) in
+  ectx st1 = 5 /\ buf1 = (pre ++ [2; 7; 3; 8; 9])%N /\
+  enc_delete_current st1 buf1 = Some (EInt 5, mke 0 5 0, pre).
+Proof. exact enc_delete_example. Qed.
+
 Print Assumptions C01_enc_roundtrip.
 Print Assumptions C01_enc_roundtrip_complete.
 Print Assumptions C01_enc_can_complete.
@@ -183,3 +225,6 @@ Print Assumptions C01_array_push_data.
 Print Assumptions C01_array_push_term.
 Print Assumptions C01_encoder_progress.
 Print Assumptions C01_array_push_terminates.
+Print Assumptions C01_data_call_counts_message_in_progress.
+Print Assumptions C01_termination_clears_count.
+Print Assumptions C01_delete_restores_completed_stream.
